@@ -814,6 +814,17 @@ class Fetcher:
                         fetch_offset,
                     )
                     continue
+                if tp in self._records:
+                    # A second fetch for the same offset (sent to the new
+                    # leader while the old leader's reply was pending) was
+                    # answered after the first one's data was buffered
+                    log.debug(
+                        "Discarding fetch response for partition %s "
+                        "since data for offset %s is already buffered",
+                        tp,
+                        fetch_offset,
+                    )
+                    continue
 
                 if error_type is Errors.NoError:
                     if response.API_VERSION >= 11:
